@@ -124,11 +124,12 @@ Proof. intros ops ls o1 o2. apply prec_grouping. Qed.
       additionally searched per instance against the oracle [lang_upto] (proved exact up to its
       bound) and witnessed longer sentences;
     - that the driver also terminates on NON-sentences over constructed tables (so that "not
-      accepted" becomes "Rejected" in [recognises]): THEOREM for the modelled canonical LR(1)
-      construction and every valid grammar whose non-terminals all generate
-      ([C11_clr_terminates], [C11_clr_recognises], [C11_full_clr_clause]; the hypothesis is
-      necessary: [C11_nongenerating_hangs_refuted]); for the SLR and LALR tables it is not proved
-      ([C11_slr_terminates_full], [C11_lalr_terminates_full]) and [term_ok] is evaluated per table. *)
+      accepted" becomes "Rejected" in [recognises]): THEOREMS for the three modelled constructions
+      and every valid grammar whose non-terminals all generate ([C11_clr_terminates],
+      [C11_slr_terminates], [C11_lalr_terminates], the [_recognises] and [C11_full_*_clause]
+      corollaries, and [C11_full_modelled] which collects the five clauses; the hypothesis is
+      necessary: [C11_nongenerating_hangs_refuted]); [term_ok] is still evaluated per table on
+      the Go tables. *)
 Definition reduced (G : gram) : Prop :=
   (forall A, In A (nonterms G) -> exists u v, derives G [Nt (start G)] (u ++ Nt A :: v)) /\
   (forall A, In A (nonterms G) -> exists x, derives G [Nt A] (map Tm x)).
@@ -180,8 +181,10 @@ Qed.
     NOT proved: that the tables of the modelled constructions always pass [term_ok] for some
     computable [B] ("conflict-free => no derivation cycle A =>+ A reachable in the automaton");
     [term_ok 400] is therefore evaluated on every table on every run.  Termination of the driver
-    on every input over the modelled canonical LR(1) tables is proved by another route, without
-    [term_ok]: [C11_clr_terminates] below. *)
+    on every input over the modelled canonical LR(1), SLR(1) and LALR(1) tables is proved by
+    other routes, without [term_ok]: [C11_clr_terminates], [C11_slr_terminates] and
+    [C11_lalr_terminates] below (the latter two do show that no run of reductions from a stack
+    the driver can have is infinite, but bound its length by a function of the stack). *)
 Theorem C11_term_ok_exact :
   forall (tbl : table) (B : nat) (a : look) (known rest : list Z) (inp : list nat) (out : list event),
     sim_run B tbl a known = SimLoop -> hd_error inp = a ->
@@ -590,6 +593,64 @@ Theorem C11_full_slr_clause :
     valid_grammar G -> reduced G -> build_slr fuel G [] = BuiltOk t -> recognises G t.
 Proof. intros G fuel t Hv [_ Hg]. exact (C11_slr_recognises G fuel t Hv Hg). Qed.
 
+(** TERMINATION ON EVERY INPUT over the tables of the modelled LALR(1) construction: THEOREM, by
+    the same argument (the interface of ProofsTerm4.v is instantiated with the merged states:
+    an LR(0) item is in a merged state iff it is in the core of the class, and it carries a
+    lookahead iff the LR(1) item is in some member of the class). *)
+Theorem C11_lalr_terminates : C11_lalr_terminates_full.
+Proof.
+  intros G fuel tbl w Hv Hg Hb. destruct (canonical1 fuel G) as [C|] eqn:EC.
+  - destruct (lalr_no_hang G Hv Hg fuel C EC tbl Hb w) as [F HF]. exists F. split; [exact HF|].
+    intros f Hle. now apply parse_fuel_irrelevant.
+  - unfold build_lalr, finish, lalr_raw in Hb. rewrite EC in Hb. discriminate.
+Qed.
+
+Theorem C11_lalr_recognises :
+  forall (G : gram) (fuel : nat) (tbl : table),
+    valid_grammar G -> generating G -> build_lalr fuel G [] = BuiltOk tbl -> recognises G tbl.
+Proof.
+  intros G fuel tbl Hv Hg Hb w.
+  destruct (C11_lalr_terminates G fuel tbl w Hv Hg Hb) as [F [HF Hm]]. exists F. split; [exact Hm|].
+  destruct (parse F tbl w) as [evs|r e|] eqn:E; [| |congruence].
+  - exact (C11_lalr_parser_sound G fuel [] tbl F w evs (proj1 (proj1 Hv)) Hb E).
+  - intros HL. destruct (C11_lalr_complete G fuel tbl w Hv Hb HL) as [f [evs Hf]].
+    assert (Hnh : parse f tbl w <> Hang) by (rewrite Hf; discriminate).
+    pose proof (parse_fuel_irrelevant tbl w f (Nat.max F f) Hnh (Nat.le_max_r _ _)) as E1.
+    pose proof (Hm (Nat.max F f) (Nat.le_max_l _ _)) as E2. congruence.
+Qed.
+
+Theorem C11_full_lalr_clause :
+  forall (G : gram) (fuel : nat) (t : table),
+    valid_grammar G -> reduced G -> build_lalr fuel G [] = BuiltOk t -> recognises G t.
+Proof. intros G fuel t Hv [_ Hg]. exact (C11_lalr_recognises G fuel t Hv Hg). Qed.
+
+(** All five clauses of [C11_full] for the three modelled constructions at a common fuel (a
+    build function returns a table only for [BuiltOk]; no precedence declarations), for every
+    valid reduced grammar whose LR(1) collection is completed within the fuel. *)
+Definition built (r : build_result) : option table := match r with BuiltOk t => Some t | _ => None end.
+
+Theorem C11_full_modelled :
+  forall (G : gram) (fuel : nat) (C1 : list (list item1)),
+    valid_grammar G -> reduced G -> canonical1 fuel G = Some C1 ->
+    (forall t, built (build_slr fuel G []) = Some t -> recognises G t) /\
+    (forall t, built (build_lalr fuel G []) = Some t -> recognises G t) /\
+    (forall t, built (build_clr fuel G []) = Some t -> recognises G t) /\
+    (built (build_slr fuel G []) <> None -> built (build_lalr fuel G []) <> None) /\
+    (built (build_lalr fuel G []) <> None -> built (build_clr fuel G []) <> None).
+Proof.
+  intros G fuel C1 Hv Hr HC.
+  assert (Hb : forall r t, built r = Some t -> r = BuiltOk t).
+  { intros r t H. destruct r; simpl in H; try discriminate. now inversion H. }
+  split; [|split; [|split; [|split]]].
+  - intros t H. exact (C11_full_slr_clause G fuel t Hv Hr (Hb _ _ H)).
+  - intros t H. exact (C11_full_lalr_clause G fuel t Hv Hr (Hb _ _ H)).
+  - intros t H. exact (C11_full_clr_clause G fuel t Hv Hr (Hb _ _ H)).
+  - intros H. destruct (build_slr fuel G []) as [t| | |] eqn:E; simpl in H; try congruence.
+    destruct (C11_slr_ok_implies_lalr_ok G fuel fuel t C1 Hv E HC) as [t1 E1]. rewrite E1. discriminate.
+  - intros H. destruct (build_lalr fuel G []) as [t| | |] eqn:E; simpl in H; try congruence.
+    destruct (C11_lalr_ok_implies_clr_ok G fuel t E) as [t2 E2]. rewrite E2. discriminate.
+Qed.
+
 (** Witness checker for long sentences: a production sequence accepted by [lm_check] is a
     leftmost derivation of the string. *)
 Theorem C11_witness_sound :
@@ -689,3 +750,7 @@ Print Assumptions C11_nongenerating_hangs_refuted.
 Print Assumptions C11_slr_terminates.
 Print Assumptions C11_slr_recognises.
 Print Assumptions C11_full_slr_clause.
+Print Assumptions C11_lalr_terminates.
+Print Assumptions C11_lalr_recognises.
+Print Assumptions C11_full_lalr_clause.
+Print Assumptions C11_full_modelled.
